@@ -198,6 +198,11 @@ func runC17F(s *kernel.Sim) {
 	concP := tp.Choose(3)
 	siteOn, density := lockSites(tp)
 	s.Knobs["attempts"], s.Knobs["cooldown_s"], s.Knobs["multiplier"], s.Knobs["ops"], s.Knobs["lock_sites"] = attempts, cooldown, mult, nOps, density
+	// a slow upstream: a sequence may still be answered long after its first retry,
+	// also later than cool-down + retry request timeout (short in half of the runs)
+	engineRetryTimeoutS = []int{600, 10}[tp.Choose(2)]
+	slowP := tp.Choose(4)
+	s.Knobs["retry_timeout_s"], s.Knobs["slow_upstream_per_10_ops"] = engineRetryTimeoutS, slowP
 	files := map[string]string{
 		"flows/fr.yaml": flowDef{
 			Name: "fr", URL: "a.com/r",
@@ -304,6 +309,10 @@ func runC17F(s *kernel.Sim) {
 	}
 	for op := 0; op < nOps && !s.Failed(); op++ {
 		s.Sleep(time.Duration(1+tp.Choose(2000)) * time.Millisecond)
+		if slowP > 0 && tp.Chance(slowP, 10) {
+			s.Sleep([]time.Duration{4 * time.Second, 11 * time.Second, time.Duration(engineRetryTimeoutS+3) * time.Second}[tp.Choose(3)])
+			s.FaultFired("slow_upstream")
+		}
 		k := 1
 		if concP > 0 && tp.Chance(concP, 5) {
 			k = tp.Range(2, 3)
